@@ -61,6 +61,8 @@ structure Hist where
   cancellable : Bool := false
   canceled : Bool := false
   nAttempts : Nat := 0
+  created : Bool := false       -- the underlying stream existed before this operation
+  raceArmed : Bool := false     -- ctx=race: the first waiter that finds the context alive gets it cancelled under its feet
   deriving Inhabited
 
 /-- monitors on what the implementation printed -/
@@ -84,6 +86,12 @@ def monitor (rep : Report) (ln : Nat) (h : Hist) (op : String) (oa : List (Strin
   let rep := if !created && (arg a "sends" != "" || arg a "recv" != "0" || arg a "header" != "0" || arg a "closesend" != "0")
              then fail rep ln "delegation_after_creation" else rep
   let rep := if arg a "blocked" != "" && created then fail rep ln "recv_progress" else rep
+  -- once created, every receive / header / send reaches the underlying stream — also after the call's
+  -- context has ended (the wrapper does not answer in its place)
+  let rets := if arg a "rets" == "" then [] else (arg a "rets").splitOn ","
+  let rep := if h.created && op == "call" &&
+                rets.any (fun r => r == s!"{arg oa "t"}:ctxerr" || r == s!"{arg oa "t"}:createerr")
+             then fail rep ln "delegation_after_creation" else rep
   rep
 
 structure Sess where
@@ -98,15 +106,23 @@ def handle (sess0 : Sess) (rep : Report) (ln : Nat) (toks : List String) (obs : 
   let sess := sess0.model
   match toks.head? with
   | some "new" =>
-    lift ({ rep with episodes := rep.episodes + 1 } |> fun rep => (some (init (arg a "ctx" == "cancel")), if obs == "ok" then rep else rep.msg s!"BAD line={ln}"))
-      { cancellable := arg a "ctx" == "cancel" }
+    lift ({ rep with episodes := rep.episodes + 1 } |> fun rep => (some (init (arg a "ctx" == "cancel" || arg a "ctx" == "race")), if obs == "ok" then rep else rep.msg s!"BAD line={ln}"))
+      { cancellable := arg a "ctx" == "cancel" || arg a "ctx" == "race", raceArmed := arg a "ctx" == "race" }
   | some "unary" =>
     (sess0, if obs == "unary=ok" then rep.bump "st.unary" else fail rep ln "unary_transparent")
   | some op =>
-    let rep := monitor rep ln sess0.hist op a obs
     let oa := args (obs.splitOn " ")
     let atts := if arg oa "attempts" == "" then 0 else ((arg oa "attempts").splitOn ",").length
-    let hist : Hist := { sess0.hist with canceled := sess0.hist.canceled || op == "cancel", nAttempts := atts }
+    -- ctx=race: does this call cancel the context from inside its own context check?  Judged from the
+    -- history the harness printed so far (nothing created, no failed attempt, not cancelled), not from the model
+    let isWaitCall := op == "call" && (arg a "c" == "recv" || arg a "c" == "header")
+    let raceNow := sess0.hist.raceArmed && isWaitCall && !sess0.hist.canceled && sess0.hist.nAttempts == 0
+    let histPre : Hist := { sess0.hist with canceled := sess0.hist.canceled || raceNow }
+    let rep := if raceNow then rep.bump "st.cancel_between_check_and_wait" else rep
+    let rep := monitor rep ln histPre op a obs
+    let hist : Hist := { histPre with canceled := histPre.canceled || op == "cancel", nAttempts := atts,
+                                      created := histPre.created || arg oa "created" == "1",
+                                      raceArmed := histPre.raceArmed && !raceNow }
     lift (match sess with
     | none => (none, rep.bump "st.skipped_after_divergence")
     | some s =>
@@ -123,6 +139,8 @@ def handle (sess0 : Sess) (rep : Report) (ln : Nat) (toks : List String) (obs : 
       | none => (sess, rep.msg s!"BAD line={ln}")
       | some (st, t) =>
         let (s1, r) := step s st
+        -- the race context: the environment's `cancel` move comes right after the waiter parked
+        let s1 := if raceNow then (step s1 .cancel).1 else s1
         let rets0 := match r with
           | some .blocked => []
           | some x => [(t, x)]
